@@ -61,6 +61,15 @@ def run(tier):
     rng = rng_for(chk, 4)
     fam = mask_family(rng, tier)
     hs = [history_for(rng, m) for m in fam]
+    # the same masks put in force by replacing the active parameter set in place (get_active_block_parameters_ref)
+    # before the output has a header, then re-arming the buffered block with write_block()
+    for m in fam[:: (3 if tier == "quick" else 1)]:
+        h = history_for(rng, m)
+        narrow = h["preamble"]["bps"][0]
+        wide = dict(narrow, qrh=histgen.nat(ALLQ), sigh=histgen.nat(ALLS), rrh=histgen.nat(3), odh=histgen.nat(3))
+        h["preamble"]["bps"][0] = wide
+        h["ops"] = [{"op": "editbp", "bp": narrow}, {"op": "wb"}] + h["ops"]
+        hs.append(h)
     m = run_histories(chk, hs, {"C04"}, label="c04")
     chk.distinct = len(set(fam))
     chk.extra["masks"] = len(fam)
